@@ -16,8 +16,8 @@ import engine_r5 as r5
 
 PROPS = {
     "C02": {
-        "controls": ["PAN-1", "PAN-3", "ERR-1", "PAN-7"],
-        "rules": [("PAN-1", pan.pan1), ("PAN-2", pan.pan2), ("PAN-3", pan.pan3), ("PAN-4", pan.pan4), ("PAN-5", pan.pan5), ("PAN-6", pan.pan6), ("PAN-7", pan.pan7), ("PAN-8", pan.pan8), ("PAN-9", pan.pan9), ("PAN-10", pan.pan10), ("PAN-11", pan.pan11), ("PAN-12", r5.pan12), ("PAN-13", r5.pan13), ("PAN-14", r5.pan14), ("PAN-15", r5.pan15), ("PAN-16", r5.pan16), ("PAN-17", r5.pan17), ("VAR-3", r5.var3), ("SUP-6", sup.sup6), ("ERR-1", err.err1)],
+        "controls": ["PAN-1", "PAN-3", "ERR-1", "PAN-7", "PAN-18"],
+        "rules": [("PAN-1", pan.pan1), ("PAN-2", pan.pan2), ("PAN-3", pan.pan3), ("PAN-4", pan.pan4), ("PAN-5", pan.pan5), ("PAN-6", pan.pan6), ("PAN-7", pan.pan7), ("PAN-8", pan.pan8), ("PAN-9", pan.pan9), ("PAN-10", pan.pan10), ("PAN-11", pan.pan11), ("PAN-12", r5.pan12), ("PAN-13", r5.pan13), ("PAN-14", r5.pan14), ("PAN-15", r5.pan15), ("PAN-16", r5.pan16), ("PAN-17", r5.pan17), ("PAN-18", r5.pan18), ("VAR-3", r5.var3), ("SUP-6", sup.sup6), ("ERR-1", err.err1)],
         "explanation": "Decides four panic mechanisms whose presence is visible in the shape of the code (each a necessary condition of C02), not termination or "
                        "value-dependent panics. PAN-1: forward liveness of every RefCell guard on MIR plus interprocedural borrow summaries (cells = SubRule fields / "
                        "&RefCell parameters mapped through call sites): no borrow, and no call that may borrow, of a cell while a conflicting guard on it is live. "
